@@ -185,6 +185,10 @@ pub fn beat() {
     HEARTBEAT.fetch_add(1, std::sync::atomic::Ordering::Relaxed);
 }
 
+/// Set while proptest shrinks a failure: its value-tree operations on long step vectors can take many seconds between
+/// two executions of the case, which is the library's business and not a hang of the tested code.
+pub static SHRINKING: std::sync::atomic::AtomicBool = std::sync::atomic::AtomicBool::new(false);
+
 /// Exit status of a worker whose current case did not finish within the per-case limit.
 pub const HANG_EXIT: i32 = 86;
 
@@ -197,7 +201,7 @@ pub fn start_watchdog(limit_s: u64, on_expire: fn() -> i32) {
         loop {
             std::thread::sleep(std::time::Duration::from_millis(500));
             let now = HEARTBEAT.load(std::sync::atomic::Ordering::Relaxed);
-            if now != last {
+            if now != last || SHRINKING.load(std::sync::atomic::Ordering::Relaxed) {
                 last = now;
                 since = std::time::Instant::now();
             } else if since.elapsed().as_secs() >= limit_s {
@@ -290,10 +294,13 @@ where
             None => Ok(()),
             Some(f) => {
                 failed.set(true);
+                SHRINKING.store(true, std::sync::atomic::Ordering::Relaxed);
                 Err(TestCaseError::fail(format!("{}: {}", f.class, f.msg)))
             }
         }
     });
+    SHRINKING.store(false, std::sync::atomic::Ordering::Relaxed);
+    beat();
     match res {
         Ok(()) => None,
         Err(TestError::Fail(_, case)) => {
